@@ -33,7 +33,7 @@ FAR_DEPTH = 10**6    # "unlimited" for context_depth_limit / block_nesting_limit
 INNER = "{% capture z %}{{ z }}y{% endcapture %}{{ z }}|"
 
 NEST_KINDS = ["for", "tablerow", "include_for", "render_for", "for_include", "for_render", "for_call"]
-NEST_KINDS_SMALL = ["for", "tablerow", "render_for", "for_include"]
+NEST_KINDS_SMALL = ["for", "tablerow", "render_for", "for_include", "for_call"]
 
 
 def _around(ps: Iterator[int] | list[int]) -> set[int]:
@@ -98,7 +98,7 @@ def nest_cases(tier: str) -> Iterator[dict[str, Any]]:
                 continue
             for lens in itertools.product(lens_full, repeat=depth):
                 yield build_nest(kinds, lens)
-    for kinds in itertools.product(NEST_KINDS, repeat=3):
+    for kinds in itertools.product(NEST_KINDS_SMALL if tier == "quick" else NEST_KINDS, repeat=3):
         if not _in_domain(kinds):
             continue
         for lens in itertools.product((0, 2, 3) if tier == "quick" else (0, 1, 2, 3), repeat=3):
